@@ -119,7 +119,7 @@ func c08PathKey(p Path) string {
 }
 
 var reLocal = regexp.MustCompile(`L:[A-Za-z0-9_\[\]\*\./]+?\.(t\d+|[a-z][A-Za-z0-9_]*)`)
-var reTmp = regexp.MustCompile(`#[A-Za-z0-9_\[\]\*\./]+\.t\d+(@\d+)?|@\d+`)
+var reTmp = regexp.MustCompile(`#[A-Za-z0-9_\[\]\*\./]+\.t\d+(@\d+(~\d+)?)?|@\d+(~\d+)?`)
 
 func c08Mentions(ev Event, subject string) bool {
 	if ev.Recv != nil && avSubject(*ev.Recv) == subject {
